@@ -158,10 +158,14 @@ def gen_prim(r):
 
 
 def gen_plain_struct(r, ids, depth):
+    """type of a struct-typed KEY member (copied whole into the key holder, never descended into); half of
+    them have #[key] members of their own"""
     n = r.randint(1, 3)
+    own_keys = r.random() < 0.5
     ms = []
     for i in ids.for_struct(n):
-        ms.append((i, False, False, gen_key_member_type(r, ids, depth + 1, allow_struct=depth < 1)))
+        ms.append((i, own_keys and r.random() < 0.6, False,
+                   gen_key_member_type(r, ids, depth + 1, allow_struct=depth < 1)))
     return ("S", r.choice("ffa"), ms)
 
 
@@ -467,6 +471,36 @@ FIXED_TYPES = [
                 (2, False, False, ("S", "f", [(0, True, False, ("s", 0))]))]),
 ]
 
+def _sensor(own_keys, ids=(10, 11)):
+    return ("S", "f", [(ids[0], own_keys, False, ("p", "u32")), (ids[1], False, False, ("p", "u32"))])
+
+
+def _struct_key_family():
+    """a #[key] member of structure type, with / without #[key] members of its own, in first / middle / last
+    position, followed by 0..2 further keys (seeded change C11b: the struct key must be copied whole and NOT
+    descended into)"""
+    out = []
+    u32 = ("p", "u32")
+    for own in (True, False):
+        for ids in ((10, 11), (0, 1)):
+            sk = _sensor(own, ids)
+            out.append(("S", "f", [(0, True, False, sk), (1, True, False, u32), (2, False, False, u32)]))
+            out.append(("S", "f", [(0, True, False, sk), (1, True, False, u32), (2, True, False, u32)]))
+            out.append(("S", "a", [(0, True, False, u32), (1, True, False, sk), (2, True, False, u32),
+                                   (3, False, False, u32)]))
+            out.append(("S", "f", [(0, False, False, u32), (1, True, False, u32), (2, True, False, sk)]))
+    # both members of the struct key are keys; struct key inside a non-key nested struct; two struct keys
+    both = ("S", "f", [(10, True, False, ("p", "u16")), (11, True, False, ("p", "u16"))])
+    out.append(("S", "f", [(0, True, False, both), (1, True, False, ("p", "u16")), (2, True, False, ("p", "u16"))]))
+    out.append(("S", "f", [(0, False, False, ("S", "f", [(5, True, False, _sensor(True)), (6, True, False, u32)])),
+                           (1, True, False, u32)]))
+    out.append(("S", "f", [(0, True, False, _sensor(True)), (1, True, False, _sensor(True, (20, 21))),
+                           (2, True, False, u32)]))
+    return out
+
+
+STRUCT_KEY_TYPES = _struct_key_family()
+
 MD5_TYPE = ("S", "f", [(0, True, False, ("q", ("p", "y"), 0))])
 
 
@@ -544,6 +578,9 @@ def pair_cases(r, t, nvals, npairs):
 def gen(r, tier):
     n = {"quick": 2600, "search": 9000, "thorough": 30000}[tier]
     cases = []
+    for t in STRUCT_KEY_TYPES:
+        cases += pair_cases(r, t, 3, 6 if tier == "quick" else 30)
+        cases.append(("r", t, gen_r_fields(r, t)))
     for t in FIXED_TYPES:
         cases += pair_cases(r, t, 6, 12 if tier == "quick" else 60)
         if codec_safe(t):
@@ -561,6 +598,8 @@ def gen(r, tier):
     for t in SIM_TYPES:
         for _ in range(6 if tier == "quick" else 20):
             sims.append(sim_case(r, t))
+    for t in STRUCT_KEY_TYPES[::3]:
+        sims.append(sim_case(r, t))
     while len(sims) < nsim:
         t = gen_safe_topic_type(r)
         if r.random() < 0.8 and not has_nonprefix_key(t):
@@ -619,6 +658,11 @@ def corpus():
           (2, ("R", [[(7, ("Q", "i16", [-15694, 136, 6986, 157, -1468, -15181])), (8, ("x", [0x44])), (9, ("P", "i8", -13))],
                      [(7, ("Q", "i16", [27206, -28524, -32768, -13116, 32767, -24202])), (8, ("x", [0x7e, 0x79, 0x20])),
                       (9, ("P", "i8", 35))]]))]),
+        # seeded change C11b: Reading{#[key] sensor: Sensor{#[key] id, gain}, #[key] channel, value}; the two samples
+        # differ in `channel` only
+        ("h", STRUCT_KEY_TYPES[0],
+         [(0, ("{", [(10, ("P", "u32", 1)), (11, ("P", "u32", 2))])), (1, ("P", "u32", 3)), (2, ("P", "u32", 9))],
+         [(0, ("{", [(10, ("P", "u32", 1)), (11, ("P", "u32", 2))])), (1, ("P", "u32", 4)), (2, ("P", "u32", 9))]),
         # whole stack, Alive sample without key hash, key after a non-key member (seeded change C11: the full
         # sample decoded with the key-holder type): fragmented, and with the key hash renamed in flight
         ("s", SIM_TYPES[0], "f64", 1,
